@@ -170,6 +170,19 @@ def build_case(cid, rng, feature):
             declared += bs
             desc.append((form, bs, bv))
         L.append("}")
+    # a further type parameter of the fn(s) is lifted to the trait (`trait Subj<X>`): the impl is still one for every qualifying
+    # type (or for Impl<T> when mockable), whatever the shape of the trait's generics
+    targ = ""
+    if rng.random() < 0.15 and not any("no_deps" in d[0] for d in desc):
+        for k_, l_ in enumerate(L):
+            if "fn subj<" in l_ or "fn f0<" in l_:
+                L[k_] = l_.replace("fn subj<", "fn subj<X: ::core::marker::Send + 'static, ", 1).replace("fn f0<", "fn f0<X: ::core::marker::Send + 'static, ", 1)
+                targ = "<u8>"
+                break
+            if "fn subj(" in l_ or "fn f0(" in l_:
+                L[k_] = l_.replace("fn subj(", "fn subj<X: ::core::marker::Send + 'static>(", 1).replace("fn f0(", "fn f0<X: ::core::marker::Send + 'static>(", 1)
+                targ = "<u8>"
+                break
     P = probe_types(declared)
     for name, (definition, _i, _s, _n) in P.items():
         L.append(definition)
@@ -178,8 +191,8 @@ def build_case(cid, rng, feature):
     need = set(declared)
     for name, (_d, impls, sync, send) in P.items():
         ok = need <= impls and sync and (send or not anyval)
-        D.append('    ::vrt::fact("impl:%s", ::vrt::implements!(::entrait::Impl<%s>: Subj));' % (name, name))
-        D.append('    ::vrt::fact("bare:%s", ::vrt::implements!(%s: Subj));' % (name, name))
+        D.append('    ::vrt::fact("impl:%s", ::vrt::implements!(::entrait::Impl<%s>: Subj%s));' % (name, name, targ))
+        D.append('    ::vrt::fact("bare:%s", ::vrt::implements!(%s: Subj%s));' % (name, name, targ))
         expect["impl:" + name] = ok
         expect["bare:" + name] = ok and not mockable
     D.append("}")
